@@ -193,7 +193,7 @@ func runC03(p *Prog, r *Report, tier string) {
 	all := append(c.effectSites(), c.successReturns()...)
 	r.Extra["rm_effect_sites"] = len(c.effectSites())
 	ctxDiscipline(p, r, txRoots(p, "ReceiveMessage"))
-	r.floor("ReceiveMessage-effect-sites", len(c.effectSites()), 4)
+	r.floor("ReceiveMessage-effect-sites", len(c.effectSites()), 2)
 
 	type row struct {
 		name  string
